@@ -8,6 +8,7 @@
      lin|linear    ( count )  |  ( count : a b )
      range         ( a b )    |  ( a b : step )
      fac|fact|factor ( count ) | ( count : b ) | ( count : b : f ) | ( count : b : f : i ) | ( count : b :: i )
+                   (b resp. f not below DBL_MIN where it serves as factor; f does not start with ':')
 
    Every "(", ":" and ")" may be preceded by at most ONE blank which must be
    followed by a printing character ([vis]); count is what strtoumax (base 0)
@@ -62,12 +63,12 @@ Inductive fac_form (t : text) (p : nat) : desc -> Prop :=
     fac_form t p (PFac b b (Fin 0) (wrap32 (Z.of_N n + 1)))
 | FF_fact q k n q2 k1 b q3 k2 f q4 :
     vis t p c_lpar q -> utok t (S q) k n -> vis t (S q + S k) c_colon q2 ->
-    dtok t (S q2) k1 b -> vis t (S q2 + S k1) c_colon q3 ->
+    dtok t (S q2) k1 b -> vis t (S q2 + S k1) c_colon q3 -> byte_at t (S q3) <> c_colon ->
     dtok t (S q3) k2 f -> ge_dblmin f -> vis t (S q3 + S k2) c_rpar q4 ->
     fac_form t p (PFac b f (Fin 0) (wrap32 (Z.of_N n + 1)))
 | FF_init q k n q2 k1 b q3 k2 f q4 k3 i q5 :
     vis t p c_lpar q -> utok t (S q) k n -> vis t (S q + S k) c_colon q2 ->
-    dtok t (S q2) k1 b -> vis t (S q2 + S k1) c_colon q3 ->
+    dtok t (S q2) k1 b -> vis t (S q2 + S k1) c_colon q3 -> byte_at t (S q3) <> c_colon ->
     dtok t (S q3) k2 f -> ge_dblmin f -> vis t (S q3 + S k2) c_colon q4 ->
     dtok t (S q4) k3 i -> vis t (S q4 + S k3) c_rpar q5 ->
     fac_form t p (PFac b f i (wrap32 (Z.of_N n + 1)))
